@@ -342,6 +342,7 @@ func runC13(t *kernel.Tape, opt core.Opts) *core.Outcome {
 	}
 	p := Generate(t, g)
 	maybeAnyTypes(t, p)
+	maybeInputKeys(t, p)
 	var faults []lnode
 	if scenario < 6 {
 		faults = injectFaults(t, p, []int{0, 1, 0, 1, 2}, true)
